@@ -1,7 +1,7 @@
 """C02 — Delivered messages are authentic and untampered (dataflow-binding clauses; the cipher's strength is assumed)."""
 import re
 
-from analysis import (Prov, Guards, fmt, fmt_short, walk, roots, short, canon, comparison, callee_matches, must_pass,
+from analysis import (flow_key, Prov, Guards, fmt, fmt_short, walk, roots, short, canon, comparison, callee_matches, must_pass,
                       const_int_of, writes_into, aliases_of, async_param_names)
 from facts import AnchorError, strip_closure
 from harness import Rule, guarded
@@ -282,7 +282,7 @@ def r2(ctx):
     rule.check(init == iv16, "Packet::decode: associated data starts with data[..IV_LENGTH]", "Packet::decode|aad-iv", "the associated data does not start with the received IV: %s" % init[:200], loc=pd.loc(tup.line))
     ws = writes_into(pd, p, aad_local)
     parts = [(bi, m, F(src[0])) for bi, m, src, t in ws]
-    parts.sort(key=lambda x: sum(1 for y in parts if y[0] != x[0] and must_pass(pd, [x[0]], via_blocks=[y[0]])))
+    parts.sort(key=flow_key(pd, parts))
     hdr = "core::slice::index::index(%s, std::ops::Range::Range{start: const(crate::packet::IV_LENGTH=16), end: AddWithOverflow(const(crate::packet::IV_LENGTH=16), const(crate::packet::STATIC_HEADER_LENGTH=23)).0})" % data
     okk = len(parts) == 2 and all(m == "extend_from_slice" for _, m, _ in parts) and parts[0][2] == hdr and parts[1][2].startswith("core::slice::index::index(%s, std::ops::Range::Range{start: AddWithOverflow(const(crate::packet::IV_LENGTH=16), const(crate::packet::STATIC_HEADER_LENGTH=23)).0" % data)
     rule.check(okk, "Packet::decode: then exactly the static header bytes data[16..39] and the auth-data bytes data[39..39+n], nothing else", "Packet::decode|aad-parts",
@@ -290,7 +290,7 @@ def r2(ctx):
     # the two later parts are the very buffers the header cipher unmasked (the expressions above cannot tell data[16..39] from its unmasked copy)
     # the two buffers are identified by role, not by name: the first and the second buffer the header cipher is applied to
     ks = [(bi, t) for bi, t in pd.calls() if callee_matches(t, r"StreamCipher::apply_keystream$") and len(t.args) > 1 and t.args[1].place is not None]
-    ks.sort(key=lambda x: sum(1 for y in ks if y[0] != x[0] and must_pass(pd, [x[0]], via_blocks=[y[0]])))
+    ks.sort(key=flow_key(pd, ks))
     if len(ks) != 2:
         raise AnchorError("Packet::decode: %d apply_keystream calls (2 confirmed by hand: static header, auth-data)" % len(ks))
     named = {"static_header": base_local(pd, ks[0][1].args[1].place.local), "auth_data": base_local(pd, ks[1][1].args[1].place.local)}
@@ -569,7 +569,7 @@ def r4_r5(ctx):
     parts = []
     for l in bufl:
         ws = writes_into(pe, p, l)
-        ws.sort(key=lambda x: sum(1 for y in ws if y[0] != x[0] and must_pass(pe, [x[0]], via_blocks=[y[0]])))
+        ws.sort(key=flow_key(pe, ws))
         parts = [F(src[0]) for wb, m, src, wt in ws]
     r4.check(parts == ["core::num::to_be_bytes(self.iv)", "crate::packet::Packet::encrypt_header(self, dst_id)", "self.message"], "Packet::encode: iv || encrypt_header() || message", "Packet::encode|parts",
              "Packet::encode writes %s" % parts, loc=pe.loc(pe.line))
